@@ -530,7 +530,7 @@ func modeNotif(r *vlib.Run) {
 	Q := universe(abg, r.N(3, 4))
 	shapes := notifShapes(r)
 	probes := universe(abg, 2)
-	sample := r.N(1, 16)
+	sample := r.N(1, 64)
 	var evals, dedup, offeredN, silentN int64
 	si := -1
 	runSet := func(si int, qs [][]string) {
@@ -707,7 +707,7 @@ func keyedPath(rng *rand.Rand, idx []string) *pb.Path {
 
 func modeNotifRand(r *vlib.Run) {
 	alpha := []string{"a", "b", "c"}
-	r.ForTrials("notifrand", r.N(20000, 400000), func(trial int, rng *rand.Rand) {
+	r.ForTrials("notifrand", r.N(30000, 400000), func(trial int, rng *rand.Rand) {
 		nc := 1 + rng.Intn(3)
 		m := match.New()
 		clients := make([]*cli, nc)
@@ -1021,7 +1021,7 @@ func runHistory(ops []hop, nc int) (v *verdict, at int, feat map[string]bool) {
 
 func modeHistory(r *vlib.Run) {
 	steps := r.N(40, 80)
-	r.ForTrials("history", r.N(2000, 50000), func(trial int, rng *rand.Rand) {
+	r.ForTrials("history", r.N(8000, 100000), func(trial int, rng *rand.Rand) {
 		ops, nc := genHistory(rng, steps)
 		v, at, feat := runHistory(ops, nc)
 		r.Eval(1)
@@ -1500,7 +1500,7 @@ func offersByID(st *vlib.Stream) map[int64]int {
 }
 
 func modeServer(r *vlib.Run) {
-	r.ForTrials("server", r.N(800, 16000), func(trial int, rng *rand.Rand) {
+	r.ForTrials("server", r.N(2000, 30000), func(trial int, rng *rand.Rand) {
 		if serverStalled {
 			r.Inconclusive("server: trial skipped after a watchdog expiry earlier in this process")
 			return
@@ -1795,7 +1795,7 @@ func main() {
 		ID: "C06",
 		Rule: "pairs (exhaustive): every (query, path) over {a,b,*}^<=4 (121 x 121) through the real trie via Update, UpdateOnce and single-update / single-delete UpdateNotification, plus ctree.Query containment on a tree holding the path as a leaf, plus remove / repeated remove / re-add on a node shared with a second client; a pair is distinct non-trivial when both sides are non-empty. " +
 			"fulltrie (exhaustive): all 121 queries in one trie with two clients each, staged removals, every path. " +
-			"notif (exhaustive): every query set of size <= 2 over {a,b,*}^<=3 (thorough <=4) against every notification shape (single update/delete over ^<=3 (thorough ^<=4); ordered pairs UU/UD/DD over ^<=2; triples UUD over ^<=1; thorough also UU pairs over ^<=3) through UpdateNotification with prefix splits and both path encodings; a case is distinct non-trivial when >= 2 (path, entry) combinations agree, i.e. de-duplication had something to do (thorough records a 1/16 systematic sample of them; the full number is counter notif_cases_dedup_needed). " +
+			"notif (exhaustive): every query set of size <= 2 over {a,b,*}^<=3 (thorough <=4) against every notification shape (single update/delete over ^<=3 (thorough ^<=4); ordered pairs UU/UD/DD over ^<=2; triples UUD over ^<=1; thorough also UU pairs over ^<=3) through UpdateNotification with prefix splits and both path encodings; a case is distinct non-trivial when >= 2 (path, entry) combinations agree, i.e. de-duplication had something to do (thorough records a 1/64 systematic sample of them; the full number is counter notif_cases_dedup_needed). " +
 			"notifrand / history / server: seeded random; a notifrand trial counts when it had a notification needing de-duplication and one offered to nobody; a history counts when it contains an offer, a removal on a node shared with another client, a re-registration after removal and a judged silence after removal; a server trial counts when a request has >= 2 paths and at least one notification was streamed and one was not.",
 		Assumptions: []string{
 			"model.Compat (agreement on every common element, '*' on either side agrees with anything) is the relation of the statement; for a plain match.Update only 'offered or not' is judged, the number of offers only where the notification goes through UpdateOnce / UpdateNotification",
